@@ -17,6 +17,7 @@ import (
 	"os/exec"
 	"sort"
 	"strings"
+	"time"
 
 	"github.com/usnistgov/dastard"
 	"verifharness/lib"
@@ -52,6 +53,10 @@ type Case struct {
 	Data []int  `json:"data"`
 	Ops  []int  `json:"ops"` // block lengths of delivery B; the delivered stream is Data[:sum(Ops)]
 	Kind string `json:"kind"`
+	// other trigger types ALSO switched on in the same trigger state (bit 0 edge, bit 1 level, bit 2 auto):
+	// edge-multi is exclusive of them, so they must have no effect
+	Also      int `json:"also"`
+	AlsoLevel int `json:"alsolevel"` // LevelLevel for bit 1 (a value the stream crosses)
 }
 
 type rec struct {
@@ -70,6 +75,33 @@ type part struct {
 	St0Per   int64    `json:"st0period"`
 	Blocks   [][]rec  `json:"blocks"`
 	Err      string   `json:"err"`
+}
+
+// withOthers switches the other trigger types on in ts, with settings that fire on the case's stream.
+func (c *Case) withOthers(ts dastard.TriggerState) dastard.TriggerState {
+	if c.Also&1 != 0 {
+		ts.EdgeTrigger = true
+		ts.EdgeRising = c.Thr >= 1
+		ts.EdgeFalling = c.Thr < 1
+		lv := c.Thr
+		if lv < 0 {
+			lv = -lv
+		}
+		if lv < 1 {
+			lv = 1
+		}
+		ts.EdgeLevel = lv
+	}
+	if c.Also&2 != 0 {
+		ts.LevelTrigger = true
+		ts.LevelRising = c.Thr >= 1
+		ts.LevelLevel = dastard.RawType(c.AlsoLevel)
+	}
+	if c.Also&4 != 0 {
+		ts.AutoTrigger = true
+		ts.AutoDelay = time.Duration(2*c.Nsamp) * time.Duration(periodNs)
+	}
+	return ts
 }
 
 func u16(xs []int) []uint16 {
@@ -144,6 +176,7 @@ func runPart(c *Case, what string) part {
 			thr, nm, mode = -c.Thr/2-1, 1, (c.Mode+1)%3
 		}
 		ts, err := dastard.VerifEMTTriggerState(thr, nm, mode, zt)
+		ts = c.withOthers(ts)
 		if err == nil {
 			err = b.Source().ChangeTriggerState(&dastard.FullTriggerState{ChannelIndices: ch, TriggerState: ts})
 			emtStaysOn = err == nil && c.PreMode == 3 && (npre0 != c.Npre || nsamp0 != c.Nsamp)
@@ -165,6 +198,7 @@ func runPart(c *Case, what string) part {
 		}
 	}
 	ts, err := dastard.VerifEMTTriggerState(c.Thr, c.Nmono, c.Mode, c.ZT)
+	ts = c.withOthers(ts)
 	if emtStaysOn {
 		// ConfigurePulseLengths alone was the reconfiguration
 	} else if err != nil {
@@ -251,6 +285,9 @@ func render(c *Case, pre, pa, pb *part, crashA, crashB bool) lib.Result {
 	if c.Signed {
 		tags["signed"] = true
 	}
+	if c.Also != 0 {
+		tags["other-trigger-types-also-on"] = true
+	}
 	x, lensB := c.delivered()
 	var st0 []uint16
 	st0First := c.F0 + int64(len(c.Pre))
@@ -283,8 +320,8 @@ func render(c *Case, pre, pa, pb *part, crashA, crashB bool) lib.Result {
 		lens64[i] = int64(k)
 	}
 	firstDelivered := st0First + int64(len(st0))
-	res.Term = fmt.Sprintf("mk (mkcfg %d %s %s %d %d %s) (mkst %s %s %s %s) %s %s %s %s %s %s %s %s",
-		c.Mode, lib.Z(int64(c.Thr)), lib.Z(int64(c.Nmono)), c.Npre, c.Nsamp, lib.B(c.ZT),
+	res.Term = fmt.Sprintf("mk (mkcfg %d %s %s %d %d %s) %d (mkst %s %s %s %s) %s %s %s %s %s %s %s %s",
+		c.Mode, lib.Z(int64(c.Thr)), lib.Z(int64(c.Nmono)), c.Npre, c.Nsamp, lib.B(c.ZT), c.Also,
 		lib.Z(st0First), lib.Z(st0Per), lib.B(c.Signed), lib.ZListU16(st0),
 		lib.ZList64(tab), lib.Z(timeBase+firstDelivered*periodNs), lib.Z(periodNs), lib.B(c.Signed), lib.ZListU16(x),
 		outcomeTerm(pa, crashA), lib.ZList64(lens64), outcomeTerm(pb, crashB))
@@ -317,6 +354,9 @@ func render(c *Case, pre, pa, pb *part, crashA, crashB bool) lib.Result {
 		if frames[i]-frames[i-1] < int64(c.Nsamp) {
 			tags["pile-up"] = true
 		}
+	}
+	if nrec > 128 && len(lensB) >= 2 {
+		tags["records-129+-in-one-block"] = true
 	}
 	switch {
 	case nrec == 0:
